@@ -195,19 +195,23 @@ theorem c17_success_tol (maxit : Int) (tol : α) (s0 : St α V)
     | converged i => exact hP (lc i hx)
     | orthRFailed i => rw [hx] at hinfo; cases hinfo
     | orthDFailed i => rw [hx] at hinfo; cases hinfo
+    | gramFailed i => rw [hx] at hinfo; cases hinfo
     | rrFailed i => rw [hx] at hinfo; cases hinfo
     | rrThrew i => rw [hx] at hinfo; exact h1 hinfo
     | exhausted => rw [hx] at hinfo; exact h1 hinfo
 
-/-- the converse needs no hypothesis on the prior state: if all columns pass, `finalize` reports `Success` -/
-theorem c17_passes_success (maxit : Int) (tol : α) (s0 : St α V)
+/-- if all columns pass, `info()` is decided by the B-orthonormality guard alone, whatever the prior state and whatever the loop
+    wrote into `m_info`: `Success` if `max |X' * BX - I| < sqrt(epsilon)` for the final iterate and its tracked product `BX`,
+    `NumericalIssue` otherwise (repair of finding C17-gram-breakdown: a collapsed or blown-up block is not reported as converged) -/
+theorem c17_passes_info (maxit : Int) (tol : α) (s0 : St α V)
     (hthrew : (compute K c maxit tol s0).threw = false)
     (hP : Passes K c (K.tolL2 tol c.n) (residuals (compute K c maxit tol s0).s)) :
-    info (compute K c maxit tol s0).s = .success := by
+    info (compute K c maxit tol s0).s =
+      if K.borth (compute K c maxit tol s0).s.X (compute K c maxit tol s0).l.BX then .success else .numericalIssue := by
   obtain ⟨fuel, _, hl, he, _, hs⟩ := compute_cases K c maxit tol s0
   rcases hs with ⟨_, ht, _⟩ | ⟨_, _, hs⟩
   · rw [ht] at hthrew; cases hthrew
-  · obtain ⟨_, _, _, fr⟩ := finalize_frame K c (K.tolL2 tol c.n)
+  · obtain ⟨fx, _, _, fr⟩ := finalize_frame K c (K.tolL2 tol c.n)
       (loop K c (K.tolL2 tol c.n) fuel 0 (initPhase K (reset s0)).1 (initPhase K (reset s0)).2.1).1
       (loop K c (K.tolL2 tol c.n) fuel 0 (initPhase K (reset s0)).1 (initPhase K (reset s0)).2.1).2.1
     obtain ⟨fi, _⟩ := finalize_info K c (K.tolL2 tol c.n)
@@ -217,24 +221,54 @@ theorem c17_passes_success (maxit : Int) (tol : α) (s0 : St α V)
     unfold info
     rw [hs] at hP ⊢
     rw [fr] at hP
-    exact fi hP
+    rw [fi hP, fx, hl]
+
+/-- the converse of `c17_success_tol` + `c17_success_borth`: all columns pass and the guard holds ⇒ `Success` -/
+theorem c17_passes_success (maxit : Int) (tol : α) (s0 : St α V)
+    (hthrew : (compute K c maxit tol s0).threw = false)
+    (hP : Passes K c (K.tolL2 tol c.n) (residuals (compute K c maxit tol s0).s))
+    (hG : K.borth (compute K c maxit tol s0).s.X (compute K c maxit tol s0).l.BX = true) :
+    info (compute K c maxit tol s0).s = .success := by
+  rw [c17_passes_info K c maxit tol s0 hthrew hP, if_pos hG]
+
+/--
+  **Success means the returned block passed the B-orthonormality guard.**  If `compute()` returned normally with
+  `info() == Success`, the test `max |X' * BX - I| < sqrt(epsilon)` held for the returned iterate `X` (= `eigenvectors()`) and the
+  tracked product `BX` (= `B*X` by `c17_products`).  Before the repair of finding C17-gram-breakdown a block with a zero column
+  (or one blown up to 1e50) was reported as `Success` because its residual columns are small in absolute terms.
+-/
+theorem c17_success_borth (maxit : Int) (tol : α) (s0 : St α V)
+    (hthrew : (compute K c maxit tol s0).threw = false)
+    (hinfo : info (compute K c maxit tol s0).s = .success) :
+    K.borth (eigenvectors (compute K c maxit tol s0).s) (compute K c maxit tol s0).l.BX = true := by
+  have hP := c17_success_tol K c maxit tol s0 hthrew hinfo
+  have := c17_passes_info K c maxit tol s0 hthrew hP
+  rw [hinfo] at this
+  unfold eigenvectors
+  cases hb : K.borth (compute K c maxit tol s0).s.X (compute K c maxit tol s0).l.BX with
+  | true => rfl
+  | false => rw [hb] at this; cases this
 
 /--
   **Status.**  For EVERY prior object state (fresh, or left behind by any earlier `compute()`), on a normal return:
-  `info() == Success` exactly when all `nev` residual columns pass the test.  (Before the repair of finding C17-stale-info this
-  needed the hypothesis "`m_info ≠ Success` before the call": `m_info` was never reset.)
+  `info() == Success` exactly when all `nev` residual columns pass the test AND the returned block passes the B-orthonormality
+  guard.  (Before the repair of finding C17-stale-info this needed the hypothesis "`m_info ≠ Success` before the call": `m_info`
+  was never reset; before the repair of C17-gram-breakdown the second conjunct was missing.)
 -/
 theorem c17_status (maxit : Int) (tol : α) (s0 : St α V)
     (hthrew : (compute K c maxit tol s0).threw = false) :
     info (compute K c maxit tol s0).s = .success ↔
-      Passes K c (K.tolL2 tol c.n) (residuals (compute K c maxit tol s0).s) :=
-  ⟨c17_success_tol K c maxit tol s0 hthrew, c17_passes_success K c maxit tol s0 hthrew⟩
+      Passes K c (K.tolL2 tol c.n) (residuals (compute K c maxit tol s0).s) ∧
+      K.borth (eigenvectors (compute K c maxit tol s0).s) (compute K c maxit tol s0).l.BX = true :=
+  ⟨fun h => ⟨c17_success_tol K c maxit tol s0 hthrew h, c17_success_borth K c maxit tol s0 hthrew h⟩,
+   fun h => c17_passes_success K c maxit tol s0 hthrew h.1 h.2⟩
 
 /--
   **Status per exit.**  `o.threw` ⇔ the loop was left by an exception of the inner solver, and then `m_info` is what the
   initial phase left (the code after the loop did not run).  On a normal return where not all columns pass:
-  the loop was not left through the `BlockSize == 0` exit; a failed `orthogonalizeInPlace` gives `NumericalIssue`; a
-  non-converged inner solver gives `NoConvergence`; running out of iterations leaves `m_info` as the initial phase left it
+  the loop was not left through the `BlockSize == 0` exit; a failed `orthogonalizeInPlace` and a Gram matrix whose Cholesky
+  factorization fails (`gramFailed`, repair of C17-gram-breakdown: the failed factor used to be handed to the inner solver) give
+  `NumericalIssue`; a non-converged inner solver gives `NoConvergence`; running out of iterations leaves `m_info` as the initial phase left it
   (`NoConvergence` from the reset when both initial kernels succeed: `c17_exhausted_noconvergence`); and `info()` is never
   `Success`, whatever the object's history.
 -/
@@ -243,7 +277,7 @@ theorem c17_status_exits (maxit : Int) (tol : α) (s0 : St α V) (o : Out α V) 
     (o.threw = true → info o.s = (initPhase K (reset s0)).1.info) ∧
     (o.threw = false → ¬ Passes K c (K.tolL2 tol c.n) (residuals o.s) →
       (∀ i, o.exit ≠ .converged i) ∧
-      (∀ i, o.exit = .orthRFailed i ∨ o.exit = .orthDFailed i → info o.s = .numericalIssue) ∧
+      (∀ i, o.exit = .orthRFailed i ∨ o.exit = .orthDFailed i ∨ o.exit = .gramFailed i → info o.s = .numericalIssue) ∧
       (∀ i, o.exit = .rrFailed i → info o.s = .noConvergence) ∧
       (o.exit = .exhausted → info o.s = (initPhase K (reset s0)).1.info) ∧
       info o.s ≠ .success) := by
@@ -272,7 +306,7 @@ theorem c17_status_exits (maxit : Int) (tol : α) (s0 : St α V) (o : Out α V) 
         exitInfo (compute K c maxit tol s0).exit (initPhase K (reset s0)).1.info := by
       unfold info; rw [hs, fi hP', li]
     refine ⟨fun i hi => hP' (lc i hi), fun i hi => ?_, fun i hi => ?_, fun hi => ?_, ?_⟩
-    · rw [hinfo]; rcases hi with hi | hi <;> rw [hi] <;> rfl
+    · rw [hinfo]; rcases hi with hi | hi | hi <;> rw [hi] <;> rfl
     · rw [hinfo, hi]; rfl
     · rw [hinfo, hi]; rfl
     · intro hsucc
@@ -385,7 +419,7 @@ end generic
 def exK1 : Kern Int Int :=
   { zeroV := 0, applyA := id, applyB := id, applyT := id, below := fun _ _ => false, tolL2 := fun t _ => t,
     lt := fun a b => decide (a < b), orth := fun _ X _ => some X, eig0 := fun _ _ => some ([1], [[1]]),
-    rr := fun _ => .notConverged }
+    gramSPD := fun _ => true, rr := fun _ => .notConverged, borth := fun _ _ => true }
 
 /-- `Lawful` is satisfiable (α = V = ℤ, identity operators) -/
 example : Lawful exK1 :=
@@ -424,9 +458,11 @@ def exK2 : Kern Int (Fin 11 → Int) :=
   { zeroV := fun _ => 0, applyA := id, applyB := id, applyT := id, below := fun _ _ => false, tolL2 := fun t _ => t,
     lt := fun a b => decide (a < b), orth := fun _ X _ => some X,
     eig0 := fun _ _ => some ([1, 2], [[1, 0], [0, 1]]),
+    gramSPD := fun _ => true,
     rr := fun inp => .ok [1, 2]
       [List.replicate (inp.X.length + inp.R.length + inp.D.length) 1,
-       List.replicate (inp.X.length + inp.R.length + inp.D.length) 0] }
+       List.replicate (inp.X.length + inp.R.length + inp.D.length) 0],
+    borth := fun _ _ => true }
 
 def exS2 : St Int (Fin 11 → Int) :=
   { X := [fun i => if i.val = 0 then 1 else 0, fun i => if i.val = 1 then 1 else 0], resid := [], evecs := [], evals := [],
@@ -507,5 +543,39 @@ theorem c17_ascending_partial {α V : Type} [LinearOrder α] [Add V] [Sub V] [SM
 theorem c17_test_meaning {F : Type} [Field F] [LinearOrder F] [IsStrictOrderedRing F] (fns : FieldFns F) (t : F) (v : Col F) :
     @colBelow F _ _ (scOfField fns) t v = true ↔ fns.sqrt ((v.d.toList.map (fun b => b * b)).sum) < t :=
   colBelow_iff fns t v
+
+/--
+  **Meaning of the B-orthonormality guard.**  The executable guard `gramOrthOk` (the statement
+  `(Matrix(X' * BX) - Identity).cwiseAbs().maxCoeff() < sqrt(epsilon)` in front of `m_info = Success`) instantiated at exact
+  arithmetic over any linearly ordered field says: every entry of `X' BX - I` is below the threshold in absolute value, where
+  entry `(i, j)` of `X' BX` is the dot product of column `i` of `X` with column `j` of `BX` (= `B X` by `c17_products`).  With
+  `c17_success_borth` this is the clause "`eigenvectors()` is `X` with `X'BX = I`" up to the threshold: `Success` ⇒
+  `max |X'BX - I| < sqrt(eps)`.  (That the drift below the threshold stays near rounding level is numerical: oracle, bound 1e-8.)
+-/
+theorem c17_guard_meaning {F : Type} [Field F] [LinearOrder F] [IsStrictOrderedRing F] (fns : FieldFns F) (thr : F)
+    (X BX : List (Col F)) :
+    @gramOrthOk F _ _ _ (scOfField fns) thr X BX = true ↔
+      ∀ i j, i < X.length → j < BX.length → ∃ x bx, X[i]? = some x ∧ BX[j]? = some bx ∧
+        |((List.range x.d.size).map (fun k => @Lin.vget F (scOfField fns) x.d k * @Lin.vget F (scOfField fns) bx.d k)).sum
+          - (if i = j then 1 else 0)| < thr :=
+  gramOrthOk_iff fns thr X BX
+
+/-- kernels of the guard examples: every column passes the residual test at once; `borth`/`gramSPD` as given -/
+def exK3 (g spd : Bool) : Kern Int Int :=
+  { zeroV := 0, applyA := id, applyB := id, applyT := id, below := fun _ _ => g || spd, tolL2 := fun t _ => t,
+    lt := fun a b => decide (a < b), orth := fun _ X _ => some X, eig0 := fun _ _ => some ([1], [[1]]),
+    gramSPD := fun _ => spd, rr := fun _ => .notConverged, borth := fun _ _ => g }
+
+/-- repair of finding C17-gram-breakdown on the model: (1) all residual columns pass but the guard fails: `info()` is
+    `NumericalIssue` although the loop's `BlockSize == 0` exit wrote `Success`; with the guard passing it is `Success`;
+    (2) no column passes and the Cholesky factorization of the Gram matrix fails in iteration 0: exit `gramFailed 0`,
+    `info()` is `NumericalIssue` and the inner solver is never called -/
+example :
+    info (compute (exK3 false true) { n := 5, nev := 1 } 3 1 (construct [1])).s = .numericalIssue ∧
+    (compute (exK3 false true) { n := 5, nev := 1 } 3 1 (construct [1])).exit = .converged 0 ∧
+    info (compute (exK3 true true) { n := 5, nev := 1 } 3 1 (construct [1])).s = .success ∧
+    (compute (exK3 false false) { n := 5, nev := 1 } 3 1 (construct [1])).exit = .gramFailed 0 ∧
+    info (compute (exK3 false false) { n := 5, nev := 1 } 3 1 (construct [1])).s = .numericalIssue := by
+  refine ⟨by decide, by decide, by decide, by decide, by decide⟩
 
 end C17
